@@ -19,4 +19,8 @@ def groups():
             continue
         G.append(Group('rbstep.%s' % h[4:], props, 'S', S, h, sources=src, defines=['-DVF_S=%d' % k], unwind=20, timeout=1800, object_bits=12, replay=False,
                        what=what))
+    G.append(Group('rbstep.swap.bintree', ['C01'], 'P', S, 'h_s_bt_swap', enforce='cstl_bintree_swap', sources=src, defines=['-DVF_S=6'],
+                   what='swap of two binary tree objects: root, size, element offset, comparison function and private pointer all change hands'))
+    G.append(Group('rbstep.swap.rbtree', ['C01', 'C02'], 'P', S, 'h_s_rb_swap', enforce='cstl_rbtree_swap', sources=src, defines=['-DVF_S=6'],
+                   what='swap of two red-black tree objects: every field changes hands, both element offsets included (a handle with a stale colour offset breaks the red-black rules on the next insert)'))
     return G
